@@ -2,7 +2,7 @@
    run <fix> <page> <n> <offN,offP,offM,offA> <footN,footP,footM,footA> <conv> <scale> <nointer> <flags> <paths> <fids> <fs> <imgs> <ops...>
      conv : from:to:dt:res;...  (fmt letters N P M A, dt f4|f8) or -
      scale: fmt:dt:value:scaleid;... or - (scale factors the array writer computes)   nointer: 4 flags N P M A
-     flags: <mixed-sign data><fewer than 3 axes><reshape keeps scale factors>
+     flags: <mixed-sign data><fewer than 3 axes><reshape keeps scale factors><image re-pointed after an own-file save>
      paths: N0,N1,P0,M1  (format letter + compressed flag), one per path NAME
      fids : 0,0,1        file identity behind each name (symlink / hard link / other spelling share one)
      fs   : per FILE "-" (absent) or <v>:<dt>:<aff>[:<scaleid>], comma separated
@@ -51,7 +51,8 @@ let handle op args = match op, args with
                   | [f; d; v; r] -> (((fmt_of f.[0], dt_of d), nat_of_int (int_of_string v)), nat_of_int (int_of_string r))
                   | _ -> failwith "scale") (split ';' scale);
               g_nointer = (fun f -> nointer.[match f with Nii -> 0 | Pair -> 1 | Mgh -> 2 | Spm -> 3] = '1');
-              g_mixed = (flags.[0] = '1'); g_lowdim = (flags.[1] = '1'); g_reshape_ok = (flags.[2] = '1') } in
+              g_mixed = (flags.[0] = '1'); g_lowdim = (flags.[1] = '1'); g_reshape_ok = (flags.[2] = '1');
+              g_repoint = (flags.[3] = '1') } in
     let fs0 = List.map (fun s -> if s = "-" then None else match String.split_on_char ':' s with
         | [v; d; a] -> Some { k_val = Some (nat_of_int (int_of_string v)); k_dt = dt_of d; k_aff = nat_of_int (int_of_string a); k_scl = O }
         | [v; d; a; k] -> Some { k_val = Some (nat_of_int (int_of_string v)); k_dt = dt_of d; k_aff = nat_of_int (int_of_string a);
